@@ -477,6 +477,14 @@ def cases(rng, tier):
                     out.append(dict(c, explicit_none=True))      # retries=None passed explicitly at the request
                 if p[0] in ("none", "int") and place == "kw":
                     out.append(dict(c, chunked=True))             # the body sent chunked: after a 303 nothing of that may remain
+    # a 303 with the caller's content headers spelled in lower or upper case: none of them survives on the follow-up GET
+    for kind in ("manager", "proxy", "pool"):
+        for hs in ([["content-type", "t/p"], ["content-language", "en"], ["X-Keep", "1"]], [["CONTENT-TYPE", "t/p"], ["CONTENT-ENCODING", "identity"], ["X-Keep", "1"]],
+                   [["Content-type", "t/p"], ["content-Location", "/x"], ["X-Keep", "1"]]):
+            for hk in ("dict", "hd"):
+                out.append({"kind": kind, "redirect": True, "assert_same_host": kind == "pool", "start": ["http", "a.example", None, "/"], "method": "POST",
+                            "body": True, "headers": hs, "hkind": hk, "kw": ["retry", {"total": 8, "redirect": 8}], "pool": ["none"],
+                            "script": [{"status": 303, "to": ["http", "a.example", None, "/see"], "form": "abs"}, {"status": 200, "to": None, "form": "abs"}, {"status": 200, "to": None, "form": "abs"}]})
     # a seekable file body at offset 0 through chains of body-preserving redirects: every hop carries the body
     for kind in ("manager", "proxy", "pool"):
         for codes in ((307, 308), (308, 307, 307), (301, 307), (302, 308, 307), (307,)):
